@@ -1708,6 +1708,20 @@ impl World {
             if e.index > l.rn.raft.raft_log.committed {
                 ctx.v("C07", "uncommitted entry handed out for apply", format!("node {} index {} commit {}", id, e.index, l.rn.raft.raft_log.committed));
             }
+            if cfg.max_apply_unpersisted > 0 && is_leader {
+                // apply-before-persist: at most `limit` entries beyond what was reported persisted
+                let limit = l.rn.raft.raft_log.max_apply_unpersisted_log_limit;
+                if e.index > notified {
+                    ctx.stat(Stat::AppliedUnpersisted);
+                }
+                if e.index > notified + limit {
+                    ctx.v(
+                        "C07",
+                        "entry handed out beyond persisted + max_apply_unpersisted_log_limit",
+                        format!("node {} index {}: notified persisted up to {}, limit {}", id, e.index, notified, limit),
+                    );
+                }
+            }
             if cfg.max_apply_unpersisted == 0 || !is_leader {
                 let disk = &self.nodes[i].disk;
                 let durable = disk.entry(e.index).map(|d| d == e).unwrap_or(false);
